@@ -170,6 +170,13 @@ func (o *moneyOracle) c04(e *Env, si *StepInfo) {
 			continue
 		}
 		ok := false
+		if ed.From == marketEsc && ed.To == modAddr("node") && si.Kind == "tx" && si.Op != nil && si.Op.K == "claim" {
+			// storage income repaying the claimer's collateral debt becomes collateral
+			sp := si.Built.Signer.AddrS
+			if debtOf(prev, sp).Sub(debtOf(cur, sp)).GTE(ed.Amt) {
+				ok = true
+			}
+		}
 		if ed.From == marketEsc && t.EverProvider[ed.To] && si.Kind == "tx" && si.Op != nil && si.Op.K == "claim" && si.Built.Signer.AddrS == ed.To {
 			ok = true
 		}
@@ -487,41 +494,46 @@ func (o *moneyOracle) c07(e *Env, si *StepInfo) {
 		}
 		o.once(e, "C07", "C07.payee", lab, "node-escrow-paid-to-unentitled", to, fmt.Sprintf("%s left the node escrow to %s, who neither withdrew capacity, claimed, nor had a shard released in this step", outBy[to], fmtAddr(to)))
 	}
-	// return: a released shard pays back exactly its collateral less the recorded debt decrease
-	if !isClaim && !isRemove {
-		for sp, amt := range released {
-			debtDec := debtOf(prev, sp).Sub(debtOf(cur, sp))
-			if debtDec.IsNegative() {
-				debtDec = sdk.ZeroInt()
-			}
-			got := intOr0(outBy, sp)
-			if !got.Add(debtDec).Equal(amt) {
-				o.once(e, "C07", "C07.return", lab, "released-collateral-mismatch", sp, fmt.Sprintf("provider %s: shards %v released with collateral %s, received %s and debt decreased by %s", fmtAddr(sp), relShards[sp], amt, got, debtDec))
-			}
-		}
-	}
-	// take: completion / renewal takes exactly the recorded collateral (or records the shortfall as debt)
-	if si.Kind == "tx" && si.OK && si.Op != nil && (si.Op.K == "complete" || si.Op.K == "renew") && prev.Order != cur.Order {
-		inc := map[string]sdk.Int{}
-		for _, sid := range shardIDs(cur.Order) {
-			cs := cur.Order.Shards[sid]
-			if cs.Status != ordertypes.ShardCompleted {
-				continue
-			}
-			ps, had := prev.Order.Shards[sid]
-			before := sdk.ZeroInt()
-			if had && ps.Status == ordertypes.ShardCompleted {
-				before = ps.Pledge.Amount
-			}
-			if !cs.Pledge.Amount.Equal(before) {
-				inc[cs.Sp] = intOr0(inc, cs.Sp).Add(cs.Pledge.Amount.Sub(before))
+	// return/take: per provider and step, coins paid in minus coins paid out plus the debt
+	// change equals collateral recorded on new or topped-up shards minus collateral of
+	// released shards (a release returns exactly what was taken, less recorded debt).
+	if !isClaim && !isRemove && !isAdd && (prev.Order != cur.Order || len(outBy) > 0) {
+		raised := map[string]sdk.Int{}
+		if prev.Order != cur.Order {
+			for _, sid := range shardIDs(cur.Order) {
+				cs := cur.Order.Shards[sid]
+				if cs.Status != ordertypes.ShardCompleted {
+					continue
+				}
+				ps, had := prev.Order.Shards[sid]
+				before := sdk.ZeroInt()
+				if had && ps.Status == ordertypes.ShardCompleted {
+					before = ps.Pledge.Amount
+				}
+				if !cs.Pledge.Amount.Equal(before) {
+					raised[cs.Sp] = intOr0(raised, cs.Sp).Add(cs.Pledge.Amount.Sub(before))
+				}
 			}
 		}
-		for sp, amt := range inc {
+		sps := map[string]bool{}
+		for k := range raised {
+			sps[k] = true
+		}
+		for k := range released {
+			sps[k] = true
+		}
+		for _, sp := range sortedKeys(sps) {
 			paid := sumEdges(si, sp, nodeEsc)
-			debtInc := debtOf(cur, sp).Sub(debtOf(prev, sp))
-			if !paid.Add(debtInc).Equal(amt) {
-				o.once(e, "C07", "C07.take", lab, "collateral-taken-mismatch", sp, fmt.Sprintf("provider %s: shard collateral rose by %s but paid %s and debt rose by %s", fmtAddr(sp), amt, paid, debtInc))
+			got := intOr0(outBy, sp)
+			debtCh := debtOf(cur, sp).Sub(debtOf(prev, sp))
+			lhs := paid.Sub(got).Add(debtCh)
+			rhs := intOr0(raised, sp).Sub(intOr0(released, sp))
+			if !lhs.Equal(rhs) {
+				det, sub := "collateral-taken-mismatch", "C07.take"
+				if _, rel := released[sp]; rel {
+					det, sub = "released-collateral-mismatch", "C07.return"
+				}
+				o.once(e, "C07", sub, lab, det, sp, fmt.Sprintf("provider %s: paid %s into and received %s from the node escrow, debt changed by %s; shard collateral taken %s, released %s (shards %v)", fmtAddr(sp), paid, got, debtCh, intOr0(raised, sp), intOr0(released, sp), relShards[sp]))
 			}
 		}
 	}
@@ -572,6 +584,9 @@ func (o *moneyOracle) c08(e *Env, si *StepInfo) {
 	if si.Kind == "tx" && si.OK && si.Op != nil && si.Op.K == "claim" {
 		sp := si.Built.Signer.AddrS
 		for _, ed := range si.Edges {
+			if ed.From == modAddr("market") && ed.To == nodeEsc && debtOf(prev, sp).Sub(debtOf(cur, sp)).GTE(ed.Amt) {
+				continue
+			}
 			if (ed.From == nodeEsc || ed.From == modAddr("market")) && ed.To != sp && !ed.Amt.IsZero() {
 				o.once(e, "C08", "C08.claim", lab, "claim-paid-someone-else", ed.To, fmt.Sprintf("claim by %s paid %s to %s", fmtAddr(sp), ed.Amt, fmtAddr(ed.To)))
 			}
